@@ -568,6 +568,8 @@ def run_c01(ck, fb, fbd):
         (ck.ok if ok else lambda r, w, t: ck.violate(r, w, t, "C01.unlink:%s" % f.pq))("C01.unlink", f.where, "%s unlinks the victim from %s in every deletion mode (%d mode-independent site(s), need %d)" % (f.name, cache, len(good), need))
     owner_rule(c, cores, elem)
     compute_rule(c)
+    value_rules(c, cores)
+    value_rules_rebuild(c)
     # set_edge / set_face / set_cell
     ck.rule("C01.set", "set_edge/set_face/set_cell unlink the old definition from the cache and link the new one under the cache's guard, and write the definition afterwards on every path")
     for name, cache in (("set_edge", km_cache(c, "Vertex")), ("set_face", km_cache(c, "Edge")), ("set_cell", km_cache(c, "Face"))):
@@ -805,3 +807,174 @@ def relabel_rules(c, swaps=None):
                 continue  # cache-only rewrite (no linear-scan sibling needed: nothing to fix without the cache)
             ok = t_n >= 2 and f_n >= 2
             (ck.ok if ok else lambda r, w, t: ck.violate(r, w, t, "C17.relabel:%s:%s:siblings" % (f.pq, hname)))("C17.relabel", f.where, "%s: id1<->id2 rewrite tests present in both the %s branch (%d) and its linear-scan sibling (%d)" % (f.name, hname, t_n, f_n))
+
+
+# ------------------------------------------------------------------------------------ C01: the values that are linked / unlinked
+def cache_value_sites(f, cn, caches):
+    """(cache, kind, canonical index, canonical value, node) for element-level updates cache[I].push_back(V), cache[I] = V and
+    cache[I].erase(remove(.., V), ..)"""
+    out = []
+
+    def cache_idx(n):
+        n = unwrap(n)
+        if isinstance(n, dict) and n.get("k") == "idx":
+            b = unwrap(n.get("b"))
+            if isinstance(b, dict) and b.get("k") == "mem" and b.get("f") in caches:
+                return b["f"], n.get("i")
+        return None
+
+    for b, i, x in f.tops():
+        if b not in f.reach():
+            continue
+        a = as_assign(x)
+        if a:
+            ci = cache_idx(f.resolve(a[0]))
+            if ci:
+                out.append((ci[0], "assign", cn.s(ci[1]), cn.s(a[1]), x))
+            continue
+        if x.get("k") == "call" and x.get("r") is not None:
+            nm = x.get("pn", "").split("::")[-1]
+            ci = cache_idx(f.resolve(x["r"]))
+            if not ci:
+                continue
+            if nm in ("push_back", "emplace_back") and x.get("a"):
+                out.append((ci[0], "push", cn.s(ci[1]), cn.s(x["a"][0]), x))
+            elif nm == "erase":
+                for y in walk(f.resolve(x.get("a", []))):
+                    if isinstance(y, dict) and y.get("k") == "call" and y.get("pn", "") == "std::remove" and len(y.get("a", [])) == 3:
+                        out.append((ci[0], "remove", cn.s(ci[1]), cn.s(y["a"][2]), x))
+    return out
+
+
+def value_rules(c, cores):
+    """which handle is linked / unlinked where (canonical forms; the new entity E is the one created by the growth)"""
+    import re
+    from .canon import Canon
+    ck, fb = c.ck, c.fb
+    ck.rule("C01.value", "the linked values are the right ones: add_edge(a,b) pushes halfedge (e,0) at a and (e,1) at b; add_face pushes halfface (f,0) at every halfedge h of f and (f,1) at opposite(h); add_cell assigns c at every halfface of c; delete_edge_core removes (e,0) at from(e) and (e,1) at to(e); delete_face_core removes (f,0) at every halfedge h of f and (f,1) at opposite(h); delete_cell_core resets the entries of the halffaces of c - e/f/c being the new resp. the deleted entity")
+    vc, ec, fc = km_cache(c, "Vertex"), km_cache(c, "Edge"), km_cache(c, "Face")
+    caches = {vc, ec, fc}
+
+    def judge(ok, f, what, key):
+        (ck.ok if ok else lambda r, w, t: ck.violate(r, w, t, "C01.value:" + key))("C01.value", f.where, what)
+
+    def grown(f, kind):
+        return [x for x in c.fn(f) if any(e["cls"] == "grow" and e["role"] == "def" and e["kind"] == kind for e in c.eff.get(x.id, []))]
+
+    # add_edge
+    for f in grown("add_edge", "Edge"):
+        cn = Canon(f)
+        sites = [s for s in cache_value_sites(f, cn, caches) if s[0] == vc and s[1] == "push"]
+        got = sorted((s[2], s[3]) for s in sites)
+        m = [re.fullmatch(r"halfedge_handle\((.+), ([01])\)", v) for i_, v in got]
+        ok = len(got) == 2 and all(m) and {(got[k][0], m[k].group(2)) for k in range(2)} == {("P0", "0"), ("P1", "1")} and m[0].group(1) == m[1].group(1) and "edges_.size() - 1" in m[0].group(1)
+        judge(ok, f, "add_edge links halfedge (e,0) at the from-vertex and (e,1) at the to-vertex of the new edge e (%s)" % got, "add_edge")
+    # add_face
+    for f in grown("add_face", "Face"):
+        cn = Canon(f)
+        sites = [s for s in cache_value_sites(f, cn, caches) if s[0] == ec and s[1] == "push"]
+        got = sorted((s[2], s[3]) for s in sites)
+        ok = len(got) == 2
+        if ok:
+            byv = {}
+            for i_, v in got:
+                mm = re.fullmatch(r"halfface_handle\((.+), ([01])\)", v)
+                if mm:
+                    byv[mm.group(2)] = (i_, mm.group(1))
+            ok = set(byv) == {"0", "1"} and byv["0"][1] == byv["1"][1] and "faces_.size() - 1" in byv["0"][1]
+            if ok:
+                H, F = byv["0"]
+                ok = H.startswith("each(") and F in H and "halfedges" in H and byv["1"][0] in ("opposite_halfedge_handle(%s)" % H, "%s.opposite_handle()" % H)
+        judge(ok, f, "add_face links halfface (f,0) at every halfedge h of the new face f and (f,1) at opposite(h) (%s)" % [(a[:60], b[:50]) for a, b in got], "add_face")
+    # add_cell
+    for f in grown("add_cell", "Cell"):
+        cn = Canon(f)
+        sites = [s for s in cache_value_sites(f, cn, caches) if s[0] == fc and s[1] == "assign"]
+        ok = len(sites) == 1
+        if ok:
+            I, V = sites[0][2], sites[0][3]
+            ok = "cells_.size() - 1" in V and I.startswith("each(") and "halffaces" in I and V in I
+        judge(ok, f, "add_cell assigns the new cell c at every halfface of c (%s)" % [(s[2][:60], s[3][:40]) for s in sites], "add_cell")
+    # delete cores
+    f = cores["Edge"]
+    cn = Canon(f)
+    sites = [s for s in cache_value_sites(f, cn, caches) if s[0] == vc and s[1] == "remove"]
+    got = sorted((s[2], s[3]) for s in sites)
+    ok = len(got) == 2
+    if ok:
+        mm = [(re.fullmatch(r"edge\((.+)\)\.(from|to)_vertex\(\)", i_), re.fullmatch(r"halfedge_handle\((.+), ([01])\)", v)) for i_, v in got]
+        ok = all(a and b for a, b in mm) and {(a.group(2), b.group(2)) for a, b in mm} == {("from", "0"), ("to", "1")} and len({a.group(1) for a, b in mm} | {b.group(1) for a, b in mm}) == 1
+    judge(ok, f, "delete_edge_core removes halfedge (e,0) at from(e) and (e,1) at to(e) (%s)" % got, "delete_edge_core")
+    f = cores["Face"]
+    cn = Canon(f)
+    sites = [s for s in cache_value_sites(f, cn, caches) if s[0] == ec and s[1] == "remove"]
+    got = sorted((s[2], s[3]) for s in sites)
+    ok = len(got) == 2
+    if ok:
+        byv = {}
+        for i_, v in got:
+            mm = re.fullmatch(r"halfface_handle\((.+), ([01])\)", v)
+            if mm:
+                byv[mm.group(2)] = (i_, mm.group(1))
+        ok = set(byv) == {"0", "1"} and byv["0"][1] == byv["1"][1]
+        if ok:
+            H, F = byv["0"]
+            ok = ("face(%s).halfedges()" % F in H or "face_halfedges(%s" % F in H) and byv["1"][0] in ("opposite_halfedge_handle(%s)" % H, "%s.opposite_handle()" % H)
+    judge(ok, f, "delete_face_core removes halfface (f,0) at every halfedge h of f and (f,1) at opposite(h) (%s)" % [(a[:60], b[:40]) for a, b in got], "delete_face_core")
+    f = cores["Cell"]
+    cn = Canon(f)
+    sites = [s for s in cache_value_sites(f, cn, caches) if s[0] == fc and s[1] == "assign"]
+    ok = len(sites) >= 1 and all(s[3] == "InvalidCellHandle" and re.search(r"cell\((.+)\)\.halffaces\(\)|cell_halffaces\(", s[2]) for s in sites)
+    judge(ok, f, "delete_cell_core resets the entries of the halffaces of the deleted cell (%s)" % [(s[2][:60], s[3]) for s in sites], "delete_cell_core")
+
+
+def value_rules_rebuild(c):
+    """the same link values in the rebuild (compute_*) and in set_edge/set_face/set_cell"""
+    import re
+    from .canon import Canon
+    ck, fb = c.ck, c.fb
+    if "C01.value" not in ck.rules:
+        ck.rule("C01.value", "the rebuild functions compute_*_bottom_up_incidences (and set_edge/set_face/set_cell) link exactly the values the mutators link: halfedge (e,0) at from(e) and (e,1) at to(e); halfface (f,0) at every halfedge h of f and (f,1) at opposite(h); c at every halfface of c")
+    vc, ec, fc = km_cache(c, "Vertex"), km_cache(c, "Edge"), km_cache(c, "Face")
+    caches = {vc, ec, fc}
+
+    def judge(ok, f, what, key):
+        (ck.ok if ok else lambda r, w, t: ck.violate(r, w, t, "C01.value:" + key))("C01.value", f.where, what)
+
+    def half_pairs(sites, hh, elem_of):
+        """sites [(index, value)] must be {(H, hh(X,0)), (opp(H), hh(X,1))} resp. for vertices {(from(X), hh(X,0)), (to(X), hh(X,1))}"""
+        by = {}
+        for i_, v in sites:
+            mm = re.fullmatch(r"%s\((.+), ([01])\)" % hh, v)
+            if mm:
+                by[mm.group(2)] = (i_, mm.group(1))
+        if set(by) != {"0", "1"} or by["0"][1] != by["1"][1] or len(sites) != 2:
+            return False, None
+        return True, (by["0"][0], by["1"][0], by["0"][1])
+
+    for cache, k in c.cm.kinds.items():
+        f = fb.fns[k["compute"]]
+        cn = Canon(f)
+        sites = [(s[2], s[3]) for s in cache_value_sites(f, cn, caches) if s[0] == cache and s[1] in ("push", "assign")]
+        if cache == vc:
+            ok, r = half_pairs(sites, "halfedge_handle", None)
+            ok = ok and r[0] == "edge(%s).from_vertex()" % r[2] and r[1] == "edge(%s).to_vertex()" % r[2] and r[2] in ("each(edges())",)
+        elif cache == ec:
+            ok, r = half_pairs(sites, "halfface_handle", None)
+            ok = ok and r[2] == "each(faces())" and r[0].startswith("each(") and r[2] in r[0] and "halfedges" in r[0] and r[1] in ("opposite_halfedge_handle(%s)" % r[0], "%s.opposite_handle()" % r[0])
+        else:
+            ok = len(sites) == 1 and sites[0][1] == "each(cells())" and sites[0][0].startswith("each(") and "each(cells())" in sites[0][0][5:] and "halffaces" in sites[0][0]
+        judge(ok, f, "%s rebuilds %s with the same values the mutators link (%s)" % (f.name, cache, [(a[:60], b[:40]) for a, b in sites]), f.name)
+    for name, cache in (("set_edge", vc), ("set_face", ec), ("set_cell", fc)):
+        f = c.fn(name)[0]
+        cn = Canon(f)
+        sites = [(s[2], s[3]) for s in cache_value_sites(f, cn, caches) if s[0] == cache and s[1] in ("push", "assign") and s[3] != "InvalidCellHandle"]
+        if cache == vc:
+            ok, r = half_pairs(sites, "halfedge_handle", None)
+            ok = ok and r == ("P1", "P2", "P0")
+        elif cache == ec:
+            ok, r = half_pairs(sites, "halfface_handle", None)
+            ok = ok and r[2] == "P0" and bool(re.fullmatch(r"\*it\d+\(P1\.begin\(\)\)|each\(P1\)", r[0])) and r[1] in ("opposite_halfedge_handle(%s)" % r[0], "%s.opposite_handle()" % r[0])
+        else:
+            ok = len(sites) == 1 and sites[0][1] == "P0" and bool(re.fullmatch(r"\*it\d+\(P1\.begin\(\)\)|each\(P1\)", sites[0][0]))
+        judge(ok, f, "%s links the new definition with the values add_* would use (%s)" % (name, [(a[:50], b[:40]) for a, b in sites]), name)
